@@ -16,10 +16,14 @@ from .sx import Sym, d_bool, d_bytes, d_int, d_res, d_str
 
 RULE = ('a case = one call of push/pushadd/delete with a recording handler: job and 0-4 grouping labels (legacy names, inserted '
         'in shuffled order) with values over the URL-significant and non-ASCII alphabet (/ + % ? # space LF = @ ~ . e-acute '
-        'euro U+1F600, UTF-8 length boundaries, empty, long), non-string values (int, float, None, bool), gateway spelled '
+        'euro U+1F600, UTF-8 length boundaries, empty, long; a Unicode alphabet of texts that are not NFC / NFD / NFKC / NFKD '
+        '(base + combining marks, marks in non-canonical order, Hangul jamo, singletons such as U+212B U+2126 U+212A, composition exclusions, '
+        'compatibility forms incl. fullwidth / + % =), case pairs outside ASCII, zero-width / BOM / soft hyphen / bidi / '
+        'variation-selector / tag characters, exotic blanks and line breaks, noncharacters, and random code points of every '
+        'plane; each enumerated as job, before a slash and after a letter), non-string values (int, float, None, bool), gateway spelled '
         'with/without scheme (http, https, upper case), path prefix and 0-3 trailing slashes, 7 timeouts; exhaustive: every '
         'string of length <= 2 over a 15-character core alphabet as job and as label value; many cases carry a near-colliding '
-        'twin input whose URL must differ; the registry given is a one-gauge registry or one of: fresh (no collector), last '
+        'twin input (for non-ASCII text also: its NFC/NFD/NFKC/NFKD, case-folded, trimmed, format-characters-dropped spelling) whose URL must differ; the registry given is a one-gauge registry or one of: fresh (no collector), last '
         'collector unregistered, collectors that return/yield nothing (EMPTY exposition), a labelled metric without children '
         '(metadata only), several labelled families - plain CollectorRegistry or a subclass with __len__ (falsy when empty); '
         'the handler is a function, a callable object, or a callable object that is falsy; every api x registry kind x handler '
@@ -63,6 +67,50 @@ CORE = ['/', '+', '%', ' ', '=', 'a', 'é', '?', '#', '\n', '@', '~', '.', '€'
 EXTRA = ['Z', '0', '9', '-', '_', '\t', '\r', '\x00', '\x7f', '&', ':', ';', '"', "'", '<', '>', '\\', '|', '*', '!', '$', ',',
          '(', ')', '[', ']', '{', '}', '^', '`', '\x80', '\xff', '\u0100', '\u07ff', '\u0800', '\ud7ff', '\ue000', '\uffff',
          '\U00010000', '\U0010ffff', '\u00a0', '\u2028', '%2F', '%20', '@base64', '==', 'job']
+# Unicode text that some "canonical spelling" maps to OTHER text (the property says any Unicode string comes back exactly, code
+# point for code point): not NFC / not NFD / not NFKC / not NFKD, case pairs without an ASCII counterpart, characters a
+# cleaning step drops or trims (zero width, BOM, soft hyphen, bidi controls, variation selectors, tags, exotic blanks and
+# line breaks), noncharacters, U+FFFD.  Written with escapes on purpose: the source of this file must not be normalisable.
+UNI = ['e\u0301', 'a\u0303o', 'u\u0308', 'c\u0327', '\u0301', 'a\u0323\u0307', 'a\u0307\u0323', '\u0344', '\u0958', '\u1e9b\u0323',
+       '\u00e9', '\u1112\u1161\u11ab', '\ud55c', '\u1100\u1161', '\u212b', '\u2126', '\u212a', '\u00c5', '\u03a9', 'K', '\u2000',
+       '\u2002', '\u2329', '\uf900', '\U0002f800', '\u0340', '\u1fef', '\u0374', '\u037e',
+       '\ufb01', '\uff21', '\uff0f', '\uff05', '\uff0b', '\uff1d', '\u00b5', '\u03bc', '\u2160', '\u00bd', '\u00b2', '\u2024',
+       '\u2025', '\ufe50', '\u3000', '\u00a0', '\u2044', '\u2215', '\u33a7', '\u00a8', '\u2474',
+       '\u00df', '\u1e9e', '\u0130', '\u0131', '\u017f', '\u03c2', '\u03c3', '\u01c5', '\u0149', '\U00010400', '\U00010428',
+       '\u200b', '\u200c', '\u200d', '\ufeff', '\u00ad', '\u2060', '\u202e', '\u200e', '\u061c', '\u034f', '\ufe0f', '\U000e0001',
+       '\U000e0061', '\u180e',
+       '\u0085', '\x0b', '\x0c', '\u2029', '\u2003', '\u1680', '\u205f', '\r\n', '\x1f', '\x1c',
+       '\ufdd0', '\ufffe', '\U0001fffe', '\U0010fffe', '\ufffd', '\U000f0000']
+_PLANES = [(0x80, 0x800), (0x300, 0x370), (0x800, 0xD800), (0x1100, 0x1200), (0xAC00, 0xD7A4), (0x2000, 0x2200), (0xE000, 0x10000),
+           (0xF900, 0xFB07), (0xFF00, 0xFFF0), (0x10000, 0x20000), (0x1D100, 0x1D200), (0x2F800, 0x2FA1E), (0x20000, 0x110000)]
+
+
+def rand_cp(rng):
+    """A code point of any plane (never a surrogate), the ranges with decompositions / combining marks over-weighted."""
+    lo, hi = rng.choice(_PLANES)
+    return chr(rng.randrange(lo, hi))
+
+
+def uni_variants(s):
+    """The texts that the usual canonicalisations make of s (different from s): generator of near-colliding inputs only -
+    the oracle never normalises anything."""
+    import unicodedata
+    out = []
+    for form in ('NFC', 'NFD', 'NFKC', 'NFKD'):
+        out.append(unicodedata.normalize(form, s))
+    out += [s.casefold(), s.lower(), s.upper(), s.strip(), s.swapcase(),
+            ''.join(c for c in s if unicodedata.category(c) not in ('Cf', 'Mn')),
+            ''.join(c for c in s if unicodedata.category(c) != 'Cf'),
+            s.encode('ascii', 'ignore').decode('ascii'), s.encode('utf-8').decode('latin-1'),
+            ''.join(c for c in s if ord(c) < 0x10000), ' '.join(s.split())]
+    seen, res = {s}, []
+    for x in out:
+        if x not in seen:
+            seen.add(x)
+            res.append(x)
+    return res
+
+
 KEYS = ['a', 'b', 'B', 'Z', '_x', 'a1', 'a_', 'aa', 'ab', 'instance', 'Instance', 'job2', 'x9', '_', 'A', 'z', 'a0', 'aB', 'Ab']
 HOSTS = ['localhost:9091', 'pushgateway.local', '127.0.0.1:9091', '[::1]:9091', 'h', 'user:pw@h:9091', 'metrics.example.org',
          'http-gw:9091', 'https-proxy:443', 'httpbin.internal:9091', 'http', 'ftp-gw:21']
@@ -108,7 +156,15 @@ def rand_text(rng, maxlen=6):
     if r < 0.06:
         return ''
     n = 1 + int(rng.random() ** 2 * maxlen)
-    pool = CORE if rng.random() < 0.6 else CORE + EXTRA
+    r = rng.random()
+    if r < 0.5:
+        pool = CORE
+    elif r < 0.75:
+        pool = CORE + EXTRA
+    elif r < 0.93:
+        pool = UNI + CORE[:8]         # (elements may be short sequences: base + combining mark, jamo, CR LF)
+    else:
+        return ''.join(rand_cp(rng) if rng.random() < 0.7 else rng.choice(CORE) for _ in range(n))
     return ''.join(rng.choice(pool) for _ in range(n))
 
 
@@ -172,6 +228,10 @@ def twin_of(rng, job, gk):
         alts += ['']
     alts = [x for x in alts if x != s]
     s2 = rng.choice(alts) if alts else s + 'x'
+    if not s.isascii():
+        uv = uni_variants(s)          # another spelling of "the same" text: NFC/NFD/NFKC/NFKD, case, trimmed, format chars dropped
+        if uv and rng.random() < 0.6:
+            s2 = rng.choice(uv)
     if r < 0.15 and len(gk2) >= 2:
         # swap two values between keys
         i, j = rng.sample(range(len(gk2)), 2)
@@ -525,6 +585,15 @@ def cases(ctx):
     # 3. each single extra character, alone and next to a slash (base64 path)
     for i, c in enumerate(EXTRA):
         yield mk(APIS[i % 3], DEFAULT_GW, c, [['k', ['s', c + '/']], ['K', ['s', 'x' + c]]], i % len(TIMEOUTS))
+    # 3u. each element of the Unicode alphabet as job (escaped), before a slash (base64) and after a letter; the twin is one of
+    #     its canonicalised spellings, in turn
+    for i, u in enumerate(UNI):
+        uv = uni_variants(u) or uni_variants('x' + u + ' ')
+        tw = uv[(i + ctx.seed) % len(uv)] if uv else None
+        yield mk(APIS[i % 3], DEFAULT_GW, u, [['k', ['s', u + '/']], ['K', ['s', 'x' + u]]], i % len(TIMEOUTS),
+                 twin=dict(job=tw, gk=[['k', ['s', u + '/']], ['K', ['s', 'x' + u]]]) if tw is not None and tw != u else None)
+        yield mk(APIS[(i + 1) % 3], DEFAULT_GW, 'j', [['k', ['s', '/' + u + 'a']], ['K', ['s', u + u]]], (i + 1) % len(TIMEOUTS),
+                 twin=dict(job='j', gk=[['k', ['s', '/' + tw + 'a']], ['K', ['s', u + u]]]) if tw is not None and tw != u else None)
     # 4. base64 groups: every length 1..9 with bytes that hit alphabet positions 62 and 63
     for n in range(1, 10):
         for fill in ('?', '>', '~', '\xff', '\xfb', 'a', '߿', '\U0010ffff'):
@@ -1300,6 +1369,19 @@ def classify(case, obs):
     out.append('gw:%s,slashes=%d%s' % (g['scheme'] or 'no-scheme', g['slashes'], ',prefix' if g['prefix'] else ''))
     out.append('registry:' + _reg_text(case))
     out.append('handler:' + case.get('handler', 'func'))
+    import unicodedata
+    for t in [case['job']] + [str(vstr(v)) for _k, v in case['gk']]:
+        if not t.isascii() and _encodable(t):
+            where = 'b64' if '/' in t else 'pct'
+            for form in ('NFC', 'NFD', 'NFKC'):
+                if unicodedata.normalize(form, t) != t:
+                    out.append('text_not_%s:%s' % (form, where))
+            if t.casefold() != t:
+                out.append('text_casefold_differs:' + where)
+            if any(unicodedata.category(c) == 'Cf' for c in t):
+                out.append('text_format_chars:' + where)
+            if any(ord(c) > 0xFFFF for c in t):
+                out.append('text_astral:' + where)
     if case['api'] != 'delete':
         out.append('%s_of_%s_exposition' % (case['api'], 'EMPTY' if reg_of(case)[0] in EMPTY_REGS else 'non-empty'))
     if 'err' in obs:
@@ -1360,7 +1442,7 @@ def neighbours(case):
     for api in APIS:
         if api != case['api']:
             out.append(dict(case, api=api))
-    for s in (' ', '+', '/', '', 'a b', 'é/'):
+    for s in (' ', '+', '/', '', 'a b', 'é/', 'e\u0301', '\u212b/\u1112\u1161', '\ufb01\u200b'):
         out.append(dict(case, job=s, twin=None))
         if case['gk']:
             gk = [[k, list(v)] for k, v in case['gk']]
